@@ -13,6 +13,7 @@ struct Utxo {
   h: usize,
 }
 
+#[derive(Clone)]
 pub struct GenCfg {
   pub blocks: usize,
   pub max_txs: usize,
@@ -363,6 +364,7 @@ impl G {
       id,
       txs,
       cb: Vec::new(),
+      ..Default::default()
     }
   }
 }
@@ -709,7 +711,7 @@ pub fn provenance(seed: u64, tag: &str, blocks: usize, flags: &[&str]) -> Scenar
         }
       }
     }
-    steps.push(Step::Block(BlockSpec { id: id.clone(), txs, cb: cb(b) }));
+    steps.push(Step::Block(BlockSpec { id: id.clone(), txs, cb: cb(b), ..Default::default() }));
     free.push(format!("c{id}:0"));
     if (b + 1) % 4 == 0 {
       steps.push(Step::Update);
@@ -819,6 +821,65 @@ pub fn ledger(seed: u64, tag: &str, cfg: &GenCfg, flags: &[&str], chain: &str) -
     chain: chain.into(),
     flags: flags.iter().map(|s| s.to_string()).collect(),
     commit_interval,
+    savepoint_interval: None,
+    max_savepoints: None,
+    steps,
+  }
+}
+
+/// C01/C02 duplicate txids: a ledger-family chain in which some blocks carry a coinbase that is byte-identical
+/// to the coinbase of an earlier, fee-free block (so it has the same txid, as in mainnet blocks 91842 and 91880):
+/// the new outputs displace the old ones, destroying the sats in those that were still unspent.
+pub fn duplicates(seed: u64, tag: &str, blocks: usize, flags: &[&str]) -> Scenario {
+  let cfg = GenCfg { blocks, max_txs: 3, inscriptions: false, runes: false, update_every: 2, reopen: false, dup_coinbase: true, junk: false };
+  let mut g = G::new(seed, tag);
+  let mut steps = Vec::new();
+  // (block id, coinbase outputs) of blocks without transactions: their coinbases hold subsidy sats only
+  let mut plain: Vec<(String, Vec<OutSpec>)> = Vec::new();
+  for b in 0..blocks {
+    if b >= 3 && !plain.is_empty() && g.rng.gen_bool(0.3) {
+      let (x, cb) = plain[g.rng.gen_range(0..plain.len())].clone();
+      // transactions as usual, then the old coinbase again
+      let mut block = g.gen_block(&cfg);
+      for t in &block.txs {
+        for (i, o) in t.outs.iter().enumerate() {
+          g.values.insert(format!("{}:{i}", t.label), o.v);
+        }
+      }
+      let cbl = format!("c{x}");
+      g.utxos.retain(|u| !u.label.starts_with(&format!("{cbl}:")));
+      for (i, o) in cb.iter().enumerate() {
+        if o.t != "opret" {
+          g.utxos.push(Utxo { label: format!("{cbl}:{i}"), v: o.v, t: o.t.clone(), h: g.height + 1 });
+        }
+      }
+      block.cb = cb;
+      block.dup = Some(x);
+      g.height += 1;
+      steps.push(Step::Block(block));
+    } else {
+      let empty = g.rng.gen_bool(0.5);
+      let block = if empty {
+        let c = GenCfg { max_txs: 0, ..cfg.clone() };
+        g.next_block(&c)
+      } else {
+        g.next_block(&cfg)
+      };
+      if block.txs.is_empty() {
+        plain.push((block.id.clone(), block.cb.clone()));
+      }
+      steps.push(Step::Block(block));
+    }
+    if (b + 1) % 2 == 0 {
+      steps.push(Step::Update);
+    }
+  }
+  steps.push(Step::Update);
+  Scenario {
+    name: format!("{tag}-dup-seed{seed}"),
+    chain: "regtest".into(),
+    flags: flags.iter().map(|s| s.to_string()).collect(),
+    commit_interval: None,
     savepoint_interval: None,
     max_savepoints: None,
     steps,
